@@ -113,11 +113,40 @@ class VC:
             raise Unsupported(f"non-finite value in claim {label}")
         keys = set(l.t) | set(r.t)
         k0 = ctx._k0()
-        lnq = []
+        from .symdom import COMPOSITE_ATOMS, Unsupported, _frac
+        composite_used = any(isinstance(H, int) and H in COMPOSITE_ATOMS for k in keys for (H, p) in k[2]) if COMPOSITE_ATOMS else False
+        const_ln = {}
+        if COMPOSITE_ATOMS and any(isinstance(G, int) and G in COMPOSITE_ATOMS for k in keys for G in k[1]):
+            raise Unsupported("sqrt of an integer that could not be factored completely survives into a claim")
         for k in keys:
             e, s, ln = k
             cl, cr = l.t.get(k, ctx.zero), r.t.get(k, ctx.zero)
+            if composite_used and e == 0 and not s and len(ln) == 1:
+                (H, p), = ln
+                if isinstance(H, int) and p == 1 and all(c.numer.is_ground and c.denom.is_ground for c in (cl, cr)):
+                    # constant * ln(integer): decided exactly below, as a product of integer powers
+                    q = (_frac(cl.numer.LC) / _frac(cl.denom.LC) if cl != 0 else 0) - (_frac(cr.numer.LC) / _frac(cr.denom.LC) if cr != 0 else 0)
+                    const_ln[H] = const_ln.get(H, 0) + q
+                    continue
+            if composite_used and any(isinstance(H, int) and H in COMPOSITE_ATOMS for (H, p) in ln):
+                raise Unsupported("ln of an unfactored integer with a non-constant coefficient")
             self.eqK(f"{label}[{'rat' if k == k0 else self._keyname(k)}]", cl, cr)
+        if const_ln:
+            # sum_H q_H ln H = 0  <=>  prod_H H^(m q_H) = 1  (m = lcm of the denominators): exact integer arithmetic
+            import math
+            from fractions import Fraction
+            m = 1
+            for q in const_ln.values():
+                m = m * Fraction(q).denominator // math.gcd(m, Fraction(q).denominator)
+            num, den = 1, 1
+            for H, q in const_ln.items():
+                ex = int(Fraction(q) * m)
+                if ex > 0:
+                    num *= H ** ex
+                elif ex < 0:
+                    den *= H ** (-ex)
+            ok = (num == den)
+            self.eqK(f"{label}[ln of integer constants: product of powers = 1]", ctx.zero if ok else ctx.one, ctx.zero)
 
     def _keyname(self, k):
         e, s, ln = k
@@ -145,9 +174,11 @@ class VC:
         ds = self.disj(only)
         if perturb is not None:
             # reachability twin: first non-trivial (or first) obligation with rhs numerator + denominators
+            # (the offset is 7/3, not an integer or half-integer: the known normaliser defect shifts a coefficient by (Dy-Dx)/2,
+            # and a perturbation by +1 coincided with it for Dy-Dx = 2, which made the twin unsat)
             label, kl, kr, triv = self.obl[perturb]
-            a = f"(* {self.poly(kl.numer)} {self.poly(kr.denom)})"
-            b = f"(* (+ {self.poly(kr.numer)} {self.poly(kr.denom)}) {self.poly(kl.denom)})"
+            a = f"(* 3.0 {self.poly(kl.numer)} {self.poly(kr.denom)})"
+            b = f"(* (+ (* 3.0 {self.poly(kr.numer)}) (* 7.0 {self.poly(kr.denom)})) {self.poly(kl.denom)})"
             ds = [f"(not (= {a} {b}))"]
         if not ds:
             lines.append("(assert false)")
